@@ -312,16 +312,35 @@ impl BitFont {
         Ok(font)
     }
 
+    /// Raw 8 bit glyph data of 256 glyphs and nothing else (what `convert_to_u8_data` writes).
+    /// Unlike `from_bytes` no file format is sniffed: the first glyph may consist of any bytes.
+    pub(crate) fn from_raw_bytes(font_name: impl Into<String>, data: &[u8]) -> EngineResult<Self> {
+        let font = BitFont::load_plain_font(font_name, data)?;
+        if font.size.height > 64 {
+            return Err(FontError::UnsupportedSize(font.size.width, font.size.height).into());
+        }
+        Ok(font)
+    }
+
     fn parse_bytes(font_name: impl Into<String>, data: &[u8]) -> EngineResult<Self> {
+        let font_name: String = font_name.into();
         if data.len() >= 4 {
+            // Raw glyph data has no header, its first glyph may start with the bytes of a magic number:
+            // it is a PSF font only if the rest of the header fits the data, too.
             let magic16 = u16::from_le_bytes(data[0..2].try_into().unwrap());
             if magic16 == BitFont::PSF1_MAGIC {
-                return Ok(BitFont::load_psf1(font_name, data));
+                let length = if data[2] & BitFont::PSF1_MODE512 == BitFont::PSF1_MODE512 { 512 } else { 256 };
+                if data[3] > 0 && data.len() >= 4 + length * data[3] as usize {
+                    return Ok(BitFont::load_psf1(font_name, data));
+                }
             }
 
             let magic32 = u32::from_le_bytes(data[0..4].try_into().unwrap());
             if magic32 == BitFont::PSF2_MAGIC {
-                return BitFont::load_psf2(font_name, data);
+                let font = BitFont::load_psf2(font_name.clone(), data);
+                if font.is_ok() || data.len() % 256 != 0 {
+                    return font;
+                }
             }
         }
 
